@@ -90,20 +90,6 @@ def run(ctx):
     WL = hirq.Body(f, f.body('lber::write::write_length'))
     ctx.analysed['bodies'].add(WL.path)
     wouts = absx.Interp(f, WL, unroll=1).run()
-    short = [o for o in wouts if any(a == ('bin', 'Lt', ('param', 'length'), ('lit', 128)) and t for a, t in o.st.pc)]
-    longp = [o for o in wouts if any(a == ('bin', 'Lt', ('param', 'length'), ('lit', 128)) and not t for a, t in o.st.pc)]
-    ok = len(short) == 1 and [e[2][1] for e in short[0].st.ev if e[0] == 'call' and e[1].endswith('::write')] == [('array', (('cast', ('param', 'length'), 'u8'),))]
-    ctx.add('B2.writer-short-form', 'length < 128', loc(WL.root), ok, 'short form must be exactly one octet holding the length, chosen iff length < 128')
-    okl = bool(longp)
-    marker = False
-    for o in longp:
-        ws = [e for e in o.st.ev if e[0] == 'call' and (e[1].endswith('::write') or e[1].endswith('::write_all'))]
-        if ws:
-            first = ws[0][2][1]
-            # the unrolled path has count == 1: marker literal 0x81; check the expression in the HIR as well
-            marker = marker or first == ('array', (('lit', 0x81),))
-    ors = [n for n, c in walk(WL.root) if n['k'] == 'Binary' and n['op'] == 'BitOr' and hirq.const_eval(f, n['r']) == 0x80]
-    ctx.add('B2.writer-long-form-marker', 'count | 0x80', loc(WL.root), okl and marker and len(ors) == 1, 'long form must start with count | 0x80')
     # the length reader, decided on its enumerated paths and exhaustively over the first octet (0..255):
     #   short form exactly for X < 128, yielding X and the input after that octet;
     #   long form exactly for X >= 128, reading exactly X - 128 octets with the *streaming* take (a short buffer asks for more)
@@ -186,34 +172,37 @@ def run(ctx):
     louts = [o for o in absx.Interp(f, WL, unroll=9, summaries=[len8]).run() if o.kind == 'val']
     atoms = [a for o in louts for a, t in o.st.pc]
     badform = [absx.fmt(a) for a in atoms if not thresholds.atom_ok(a, LEN)]
+    # (leading_zeros(length) is piecewise constant between powers of two: all 2^k and their neighbours are change points below)
     ctx.add('B2m.conditions-are-thresholds', 'write_length', loc(WL.root), not badform, 'branch conditions that are not comparisons of (length >> k) with a constant: %s' % badform[:3])
     def ref_len_octets(n):
         if n < 128:
             return [n]
         b = n.to_bytes((n.bit_length() + 7) // 8, 'big')
         return [0x80 | len(b)] + list(b)
-    pts = thresholds.change_points(atoms, LEN, 0, 2 ** 64 - 1, extra=[128, 127, 255, 256, 65535, 65536, 2 ** 24 - 1, 2 ** 24, 2 ** 32 - 1, 2 ** 32, 0xFF00, 0xFF0000])
+    pow2 = [x for k in range(0, 64) for x in ((1 << k) - 1, 1 << k, (1 << k) + 1)]
+    pts = thresholds.change_points(atoms, LEN, 0, 2 ** 64 - 1, extra=[128, 127, 255, 256, 65535, 65536, 2 ** 24 - 1, 2 ** 24, 2 ** 32 - 1, 2 ** 32, 0xFF00, 0xFF0000] + pow2)
+    # exact evaluation on the literal length at every change point (see B5)
     wrong = []
+    lb = [b_ for b_, d in WL.defs.items() if d['kind'] == 'param' and d['name'] == 'length']
     for v in pts:
-        hit = [o for o in louts if thresholds.path_holds(o, LEN, v) is True]
-        if len(hit) != 1:
-            wrong.append((v, 'paths=%d' % len(hit))); continue
-        o = hit[0]
-        ws = [e for e in o.st.ev if e[0] == 'call' and (e[1].endswith('::write') or e[1].endswith('::write_all'))]
-        got = []
-        okshape = True
-        for e in ws:
-            a = thresholds.subst(e[2][1], LEN, v)
-            if a[0] == 'array' and all(x[0] == 'lit' for x in a[1]):
-                got += [x[1] & 0xff for x in a[1]]
-            elif a[0] == 'index' and a[1][0] == 'call' and a[1][1].endswith('::to_be_bytes') and a[1][2][0] == ('lit', v) and a[2][0] == 'struct' and a[2][1].endswith('RangeFrom'):
-                start = dict(a[2][2]).get('start')
-                if start and start[0] == 'lit':
-                    got += list(v.to_bytes(8, 'big'))[start[1]:]
+        I2 = absx.Interp(f, WL, unroll=16, combinators=True)
+        env = I2.param_env()
+        env[lb[0]] = ('lit', v)
+        res = [o for o in I2.run(env=env) if o.kind in ('val', 'ret', 'div')]
+        if len(res) != 1 or res[0].kind == 'div':
+            wrong.append((v, 'paths=%d' % len(res))); continue
+        got, okshape = [], True
+        for e in res[0].st.ev:
+            if e[0] == 'call' and e[1].rsplit('::', 1)[-1] in ('write', 'write_all', 'push', 'extend_from_slice'):
+                a_ = e[2][1]
+                if a_[0] == 'array' and all(x[0] == 'lit' for x in a_[1]):
+                    got += [x[1] & 0xff for x in a_[1]]
+                elif a_[0] == 'lit' and isinstance(a_[1], bytes):
+                    got += list(a_[1])
+                elif a_[0] == 'lit' and isinstance(a_[1], int):
+                    got.append(a_[1] & 0xff)
                 else:
                     okshape = False
-            else:
-                okshape = False
         if not okshape or got != ref_len_octets(v):
             wrong.append((v, [hex(x) for x in got], [hex(x) for x in ref_len_octets(v)]))
     ctx.add('B2m.length-octets-minimal', 'write_length', loc(WL.root), not wrong,
@@ -238,25 +227,32 @@ def run(ctx):
         while not (-(1 << (8 * n - 1)) <= v < (1 << (8 * n - 1))):
             n += 1
         return list(v.to_bytes(n, 'big', signed=True))
+    # at every change point (and its neighbours) the function is evaluated *exactly*, on the literal value: conditions and
+    # arithmetic fold (with the debug profile's overflow checks), loops run as many times as their literal conditions say,
+    # and the octets are read off the pushes / extends; nothing of the library is executed, the typed HIR is interpreted
     wrong = []
+    ib = [b for b, d in IE.defs.items() if d['kind'] == 'param' and d['name'] == 'inner']
     for v in pts:
-        hit = [o for o in iouts if thresholds.path_holds(o, INNER, v) is True]
-        if len(hit) != 1:
-            wrong.append((v, 'paths=%d' % len(hit))); continue
-        o = hit[0]
-        if v == LO and any(absx.leaves(a, lambda x: x[0] == 'neg') for a, t in o.st.pc):
-            wrong.append((v, 'negation overflows')); continue
+        I5 = absx.Interp(f, IE, unroll=16, combinators=True)
+        env = I5.param_env()
+        env[ib[0]] = ('lit', v)
+        res = [o for o in I5.run(env=env) if o.kind in ('val', 'ret', 'div')]
+        if len(res) != 1 or res[0].kind == 'div':
+            wrong.append((v, 'paths=%d%s' % (len(res), ' (overflow / panic)' if res and res[0].kind == 'div' else ''))); continue
+        o = res[0]
         got = []
         okshape = True
         for e in o.st.ev:
-            if e[0] == 'call' and e[1].endswith('Vec::<T, A>::push'):
-                x = thresholds.subst(e[2][1], INNER, v)
-                got.append(x[1] & 0xff if x[0] == 'lit' else None)
-            if e[0] == 'call' and e[1].endswith('::extend_from_slice'):
-                a = thresholds.subst(e[2][1], INNER, v)
-                if a[0] == 'index' and a[1][0] == 'call' and a[1][1].endswith('::to_be_bytes') and a[1][2][0] == ('lit', v) and a[2][0] == 'struct' and a[2][1].endswith('RangeFrom') \
-                        and dict(a[2][2]).get('start', ('unk',))[0] == 'lit':
-                    got += list(v.to_bytes(8, 'big', signed=True))[dict(a[2][2])['start'][1]:]
+            if e[0] != 'call':
+                continue
+            m = e[1].rsplit('::', 1)[-1]
+            if m == 'push' and 'Vec' in e[1]:
+                x = e[2][1]
+                got.append(x[1] & 0xff if x[0] == 'lit' and isinstance(x[1], int) else None)
+            elif m in ('extend_from_slice', 'extend', 'append'):
+                a = e[2][1]
+                if a[0] == 'lit' and isinstance(a[1], bytes):
+                    got += list(a[1])
                 else:
                     okshape = False
         pl = dict(o.val[2]).get('payload') if o.val[0] == 'struct' else None
@@ -270,13 +266,19 @@ def run(ctx):
     Bb = hirq.Body(f, f.body('<lber::structures::boolean::Boolean as ' + T))
     ctx.analysed['bodies'].add(Bb.path)
     got = {}
-    for o in absx.Interp(f, Bb).run():
-        flag = next((t for a, t in o.st.pc if a == ('field', ('param', 'self'), 'inner')), None)
-        fl = dict(o.val[2]) if o.val[0] == 'struct' else {}
-        got[flag] = fl.get('payload')
-        ctx.add('B3.passes-id-class', 'Boolean|%s' % flag, loc(Bb.root), fl.get('id') == ('field', ('param', 'self'), 'id') and fl.get('class') == ('field', ('param', 'self'), 'class'), 'id/class not passed through')
-    ctx.add('B3.boolean-true-is-ff', 'Boolean', loc(Bb.root), got.get(True) == ('ctor', 'PL::P', (('vec', (('lit', 0xff),)),)), 'BOOLEAN TRUE must be the single octet 0xFF')
-    ctx.add('B3.boolean-false-is-00', 'Boolean', loc(Bb.root), got.get(False) == ('ctor', 'PL::P', (('vec', (('lit', 0),)),)), 'BOOLEAN FALSE must be the single octet 0x00')
+    for flag in (True, False):
+        # evaluated exactly for both values of the boolean
+        hook = lambda base, name, st, flag=flag: ('lit', flag) if (name == 'inner' and base == ('param', 'self')) else None
+        for o in absx.Interp(f, Bb, field_hook=hook, combinators=True).run():
+            fl = dict(o.val[2]) if o.val[0] == 'struct' else {}
+            pl = fl.get('payload', ('unk',))
+            octs = None
+            if pl[0] == 'ctor' and pl[1] == 'PL::P' and pl[2] and pl[2][0][0] in ('vec', 'array'):
+                octs = [x[1] if x[0] == 'lit' else None for x in pl[2][0][1]]
+            got.setdefault(flag, []).append(octs)
+            ctx.add('B3.passes-id-class', 'Boolean|%s' % flag, loc(Bb.root), fl.get('id') == ('field', ('param', 'self'), 'id') and fl.get('class') == ('field', ('param', 'self'), 'class'), 'id/class not passed through')
+    ctx.add('B3.boolean-true-is-ff', 'Boolean', loc(Bb.root), got.get(True) == [[0xff]], 'BOOLEAN TRUE must be the single octet 0xFF (found %s)' % got.get(True))
+    ctx.add('B3.boolean-false-is-00', 'Boolean', loc(Bb.root), got.get(False) == [[0]], 'BOOLEAN FALSE must be the single octet 0x00 (found %s)' % got.get(False))
     for ty, payload in (('null::Null', ('ctor', 'PL::P', (('vec', ()),))), ('octetstring::OctetString', ('ctor', 'PL::P', (('field', ('param', 'self'), 'inner'),)))):
         B = hirq.Body(f, f.body('<lber::structures::%s as %s' % (ty, T)))
         ctx.analysed['bodies'].add(B.path)
